@@ -463,7 +463,7 @@ fn unfriendly_probe(r: &mut Rng, m: &Model) -> String {
     };
     let _ = catch(|| AdjacencyList::from(Unfriendly::new(rscript.clone(), hint)).order());
     let _ = catch(|| AdjacencyMap::from(Unfriendly::new(rscript.clone(), hint)).order());
-    let wrows = |rs: &Vec<BTreeSet<usize>>| -> Vec<BTreeMap<usize, usize>> { rs.iter().map(|s| s.iter().map(|&x| (x, x + 1)).collect()).collect() };
+    let wrows = |rs: &Vec<BTreeSet<usize>>| -> Vec<BTreeMap<usize, usize>> { rs.iter().map(|s| s.iter().map(|&x| (x, x.wrapping_add(1))).collect()).collect() };
     let wscript: Vec<Vec<BTreeMap<usize, usize>>> = rscript.iter().map(wrows).collect();
     let _ = catch(|| AdjacencyListWeighted::<usize>::from(Unfriendly::new(wscript.clone(), hint)).order());
     let arcs = m.arc_list();
@@ -1068,15 +1068,15 @@ fn leak_case(idx: u64, seed: u64, o: &mut CaseOut) {
     for i in 0..3 {
         leak_op(k, &f, i);
     }
-    let (b0, _) = alloc::live();
+    let (b0, _) = alloc::live_settled();
     for i in 0..8 {
         leak_op(k, &f, 10 + i);
     }
-    let (b1, _) = alloc::live();
+    let (b1, _) = alloc::live_settled();
     for i in 0..32 {
         leak_op(k, &f, 100 + i);
     }
-    let (b2, _) = alloc::live();
+    let (b2, _) = alloc::live_settled();
     let (d1, d2) = (b1 - b0, b2 - b1);
     o.check(!(d1 > 0 && d2 > 0 && d2 >= 2 * d1), "heap-grows-with-repetitions", || {
         format!("{}: live heap grew by {d1} bytes over 8 calls and by {d2} bytes over 32 more calls", LEAK_OPS[k])
